@@ -1,1 +1,462 @@
 // Kani harnesses compiled inside rs-matter/src/tlv/write.rs (module `verif_kani`).
+
+mod c16 {
+    use super::*;
+    use crate::tlv::{TLVElement, TLVSequence};
+
+    /// A tag of the given form (0..=7 = tag control) with symbolic fields.
+    fn tag_of_form(k: u8) -> TLVTag {
+        match k {
+            0 => TLVTag::Anonymous,
+            1 => TLVTag::Context(kani::any()),
+            2 => TLVTag::CommonPrf16(kani::any()),
+            3 => TLVTag::CommonPrf32(kani::any()),
+            4 => TLVTag::ImplPrf16(kani::any()),
+            5 => TLVTag::ImplPrf32(kani::any()),
+            6 => TLVTag::FullQual48 { vendor_id: kani::any(), profile: kani::any(), tag: kani::any() },
+            _ => TLVTag::FullQual64 { vendor_id: kani::any(), profile: kani::any(), tag: kani::any() },
+        }
+    }
+
+    fn any_tag() -> TLVTag {
+        let k: u8 = kani::any();
+        kani::assume(k < 8);
+        tag_of_form(k)
+    }
+
+    /// Reference encoder (from the encoding rules): control octet, tag octets (little-endian;
+    /// vendor, profile, tag), then `payload`. Returns the octets and their number.
+    fn reference(tag: &TLVTag, ty: u8, payload: &[u8], plen: usize) -> ([u8; 40], usize) {
+        fn put(o: &mut [u8; 40], n: &mut usize, v: u64, w: usize) {
+            let mut i = 0;
+            while i < w {
+                o[*n] = (v >> (8 * i)) as u8;
+                *n += 1;
+                i += 1;
+            }
+        }
+        let mut o = [0u8; 40];
+        let mut n = 1usize;
+        let tc: u8 = match tag {
+            TLVTag::Anonymous => 0,
+            TLVTag::Context(v) => {
+                put(&mut o, &mut n, *v as u64, 1);
+                1
+            }
+            TLVTag::CommonPrf16(v) => {
+                put(&mut o, &mut n, *v as u64, 2);
+                2
+            }
+            TLVTag::CommonPrf32(v) => {
+                put(&mut o, &mut n, *v as u64, 4);
+                3
+            }
+            TLVTag::ImplPrf16(v) => {
+                put(&mut o, &mut n, *v as u64, 2);
+                4
+            }
+            TLVTag::ImplPrf32(v) => {
+                put(&mut o, &mut n, *v as u64, 4);
+                5
+            }
+            TLVTag::FullQual48 { vendor_id, profile, tag } => {
+                put(&mut o, &mut n, *vendor_id as u64, 2);
+                put(&mut o, &mut n, *profile as u64, 2);
+                put(&mut o, &mut n, *tag as u64, 2);
+                6
+            }
+            TLVTag::FullQual64 { vendor_id, profile, tag } => {
+                put(&mut o, &mut n, *vendor_id as u64, 2);
+                put(&mut o, &mut n, *profile as u64, 2);
+                put(&mut o, &mut n, *tag as u64, 4);
+                7
+            }
+        };
+        o[0] = (tc << 5) | ty;
+        let mut i = 0;
+        while i < plen {
+            o[n] = payload[i];
+            n += 1;
+            i += 1;
+        }
+        (o, n)
+    }
+
+    /// `out` is exactly the reference encoding (every octet, through one symbolic index).
+    fn same_octets(out: &[u8], exp: &[u8; 40], n: usize) -> bool {
+        if out.len() != n {
+            return false;
+        }
+        let j: usize = kani::any();
+        kani::assume(j < n);
+        out[j] == exp[j]
+    }
+
+    // ------------------------------------------------------------------------------------------
+    // The checks (shared by the all-tag-forms encoding harness and the per-tag-form round trips)
+    // ------------------------------------------------------------------------------------------
+
+    /// `u8, u16, u32, u64`: the narrowest width that holds the value is written.
+    fn enc_unsigned(tag: TLVTag) {
+        let raw: u64 = kani::any();
+        let which: u8 = kani::any();
+        kani::assume(which < 4);
+        let mut buf = [0u8; 24];
+        let mut wb = WriteBuf::new(&mut buf);
+        let (r, x) = match which {
+            0 => (wb.u8(&tag, raw as u8), raw as u8 as u64),
+            1 => (wb.u16(&tag, raw as u16), raw as u16 as u64),
+            2 => (wb.u32(&tag, raw as u32), raw as u32 as u64),
+            _ => (wb.u64(&tag, raw), raw),
+        };
+        let w: usize = if x <= 0xff { 1 } else if x <= 0xffff { 2 } else if x <= 0xffff_ffff { 4 } else { 8 };
+        let ty: u8 = match w { 1 => 4, 2 => 5, 4 => 6, _ => 7 };
+        let (exp, n) = reference(&tag, ty, &x.to_le_bytes(), w);
+        kani::assert(r.is_ok(), "C16.enc.unsigned.ok_when_it_fits");
+        let out = wb.as_slice();
+        kani::assert(same_octets(out, &exp, n), "C16.enc.unsigned.canonical_narrowest_encoding");
+        kani::cover!(w == 8, "eight octets");
+        kani::cover!(which == 3 && w == 1, "u64 written as one octet");
+        kani::cover!(which == 1 && w == 2, "u16 written as two octets");
+    }
+
+    fn rt_unsigned(tag: TLVTag) {
+        let raw: u64 = kani::any();
+        let which: u8 = kani::any();
+        kani::assume(which < 4);
+        let mut buf = [0u8; 24];
+        let mut wb = WriteBuf::new(&mut buf);
+        let (r, x) = match which {
+            0 => (wb.u8(&tag, raw as u8), raw as u8 as u64),
+            1 => (wb.u16(&tag, raw as u16), raw as u16 as u64),
+            2 => (wb.u32(&tag, raw as u32), raw as u32 as u64),
+            _ => (wb.u64(&tag, raw), raw),
+        };
+        let w: usize = if x <= 0xff { 1 } else if x <= 0xffff { 2 } else if x <= 0xffff_ffff { 4 } else { 8 };
+        let ty: u8 = match w { 1 => 4, 2 => 5, 4 => 6, _ => 7 };
+        let (exp, n) = reference(&tag, ty, &x.to_le_bytes(), w);
+        kani::assert(r.is_ok(), "C16.rt.unsigned.ok_when_it_fits");
+        let out = wb.as_slice();
+        kani::assert(same_octets(out, &exp, n), "C16.rt.unsigned.canonical_narrowest_encoding");
+        let e = TLVElement::new(out);
+        kani::assert(matches!(e.tag(), Ok(t) if t == tag), "C16.rt.unsigned.tag_reads_back");
+        kani::assert(matches!(e.u64(), Ok(v) if v == x), "C16.rt.unsigned.u64_reads_back");
+        kani::assert(e.u32().ok() == if w <= 4 { Some(x as u32) } else { None }, "C16.rt.unsigned.u32_reads_back_iff_fits");
+        kani::assert(matches!(TLVSequence(out).container_len(), Ok(l) if l == out.len()), "C16.rt.unsigned.len_is_written_length");
+        kani::cover!(w == 8, "eight octets");
+        kani::cover!(which == 3 && w == 1, "u64 written as one octet");
+        kani::cover!(which == 1 && w == 2, "u16 written as two octets");
+    }
+
+    /// `i8, i16, i32, i64`: narrowest two's-complement width.
+    fn enc_signed(tag: TLVTag) {
+        let raw: i64 = kani::any();
+        let which: u8 = kani::any();
+        kani::assume(which < 4);
+        let mut buf = [0u8; 24];
+        let mut wb = WriteBuf::new(&mut buf);
+        let (r, x) = match which {
+            0 => (wb.i8(&tag, raw as i8), raw as i8 as i64),
+            1 => (wb.i16(&tag, raw as i16), raw as i16 as i64),
+            2 => (wb.i32(&tag, raw as i32), raw as i32 as i64),
+            _ => (wb.i64(&tag, raw), raw),
+        };
+        let w: usize = if x >= -0x80 && x <= 0x7f {
+            1
+        } else if x >= -0x8000 && x <= 0x7fff {
+            2
+        } else if x >= -0x8000_0000 && x <= 0x7fff_ffff {
+            4
+        } else {
+            8
+        };
+        let ty: u8 = match w { 1 => 0, 2 => 1, 4 => 2, _ => 3 };
+        let (exp, n) = reference(&tag, ty, &x.to_le_bytes(), w);
+        kani::assert(r.is_ok(), "C16.enc.signed.ok_when_it_fits");
+        let out = wb.as_slice();
+        kani::assert(same_octets(out, &exp, n), "C16.enc.signed.canonical_narrowest_encoding");
+        kani::cover!(x == i64::MIN, "i64::MIN");
+        kani::cover!(x == -129 && w == 2, "first value needing two octets");
+        kani::cover!(which == 3 && w == 1 && x < 0, "negative i64 written as one octet");
+    }
+
+    fn rt_signed(tag: TLVTag) {
+        let raw: i64 = kani::any();
+        let which: u8 = kani::any();
+        kani::assume(which < 4);
+        let mut buf = [0u8; 24];
+        let mut wb = WriteBuf::new(&mut buf);
+        let (r, x) = match which {
+            0 => (wb.i8(&tag, raw as i8), raw as i8 as i64),
+            1 => (wb.i16(&tag, raw as i16), raw as i16 as i64),
+            2 => (wb.i32(&tag, raw as i32), raw as i32 as i64),
+            _ => (wb.i64(&tag, raw), raw),
+        };
+        let w: usize = if x >= -0x80 && x <= 0x7f {
+            1
+        } else if x >= -0x8000 && x <= 0x7fff {
+            2
+        } else if x >= -0x8000_0000 && x <= 0x7fff_ffff {
+            4
+        } else {
+            8
+        };
+        let ty: u8 = match w { 1 => 0, 2 => 1, 4 => 2, _ => 3 };
+        let (exp, n) = reference(&tag, ty, &x.to_le_bytes(), w);
+        kani::assert(r.is_ok(), "C16.rt.signed.ok_when_it_fits");
+        let out = wb.as_slice();
+        kani::assert(same_octets(out, &exp, n), "C16.rt.signed.canonical_narrowest_encoding");
+        let e = TLVElement::new(out);
+        kani::assert(matches!(e.tag(), Ok(t) if t == tag), "C16.rt.signed.tag_reads_back");
+        kani::assert(matches!(e.i64(), Ok(v) if v == x), "C16.rt.signed.i64_reads_back");
+        kani::assert(e.i32().ok() == if w <= 4 { Some(x as i32) } else { None }, "C16.rt.signed.i32_reads_back_iff_fits");
+        kani::assert(matches!(TLVSequence(out).container_len(), Ok(l) if l == out.len()), "C16.rt.signed.len_is_written_length");
+        kani::cover!(x == i64::MIN, "i64::MIN");
+        kani::cover!(x == -129 && w == 2, "first value needing two octets");
+        kani::cover!(which == 3 && w == 1 && x < 0, "negative i64 written as one octet");
+    }
+
+    /// `bool`, `null`, `f32`, `f64` (bit patterns, NaNs included).
+    fn enc_bool_null_float(tag: TLVTag) {
+        let which: u8 = kani::any();
+        kani::assume(which < 4);
+        let bits: u64 = kani::any();
+        let mut buf = [0u8; 24];
+        let mut wb = WriteBuf::new(&mut buf);
+        let (r, ty, w): (Result<(), Error>, u8, usize) = match which {
+            0 => (wb.bool(&tag, bits & 1 == 1), if bits & 1 == 1 { 9 } else { 8 }, 0),
+            1 => (wb.null(&tag), 0x14, 0),
+            2 => (wb.f32(&tag, f32::from_bits(bits as u32)), 0x0a, 4),
+            _ => (wb.f64(&tag, f64::from_bits(bits)), 0x0b, 8),
+        };
+        let payload = if which == 2 { (bits as u32 as u64).to_le_bytes() } else { bits.to_le_bytes() };
+        let (exp, n) = reference(&tag, ty, &payload, w);
+        kani::assert(r.is_ok(), "C16.enc.misc.ok_when_it_fits");
+        let out = wb.as_slice();
+        kani::assert(same_octets(out, &exp, n), "C16.enc.misc.canonical_encoding");
+        kani::cover!(which == 2 && f32::from_bits(bits as u32).is_nan(), "f32 NaN");
+        kani::cover!(which == 3 && bits == 0x7ff0_0000_0000_0001, "f64 signalling NaN pattern");
+        kani::cover!(which == 0 && bits & 1 == 0, "false");
+        kani::cover!(which == 1, "null");
+    }
+
+    fn rt_bool_null_float(tag: TLVTag) {
+        let which: u8 = kani::any();
+        kani::assume(which < 4);
+        let bits: u64 = kani::any();
+        let mut buf = [0u8; 24];
+        let mut wb = WriteBuf::new(&mut buf);
+        let (r, ty, w): (Result<(), Error>, u8, usize) = match which {
+            0 => (wb.bool(&tag, bits & 1 == 1), if bits & 1 == 1 { 9 } else { 8 }, 0),
+            1 => (wb.null(&tag), 0x14, 0),
+            2 => (wb.f32(&tag, f32::from_bits(bits as u32)), 0x0a, 4),
+            _ => (wb.f64(&tag, f64::from_bits(bits)), 0x0b, 8),
+        };
+        let payload = if which == 2 { (bits as u32 as u64).to_le_bytes() } else { bits.to_le_bytes() };
+        let (exp, n) = reference(&tag, ty, &payload, w);
+        kani::assert(r.is_ok(), "C16.rt.misc.ok_when_it_fits");
+        let out = wb.as_slice();
+        kani::assert(same_octets(out, &exp, n), "C16.rt.misc.canonical_encoding");
+        let e = TLVElement::new(out);
+        kani::assert(matches!(e.tag(), Ok(t) if t == tag), "C16.rt.misc.tag_reads_back");
+        kani::assert(matches!(TLVSequence(out).container_len(), Ok(l) if l == out.len()), "C16.rt.misc.len_is_written_length");
+        match which {
+            0 => kani::assert(matches!(e.bool(), Ok(v) if v == (bits & 1 == 1)), "C16.rt.bool.reads_back"),
+            1 => kani::assert(e.null().is_ok() && e.bool().is_err(), "C16.rt.null.reads_back"),
+            2 => kani::assert(matches!(e.f32(), Ok(v) if v.to_bits() == bits as u32) && e.f64().is_err(), "C16.rt.f32.bits_read_back"),
+            _ => kani::assert(matches!(e.f64(), Ok(v) if v.to_bits() == bits) && e.f32().is_err(), "C16.rt.f64.bits_read_back"),
+        }
+        kani::cover!(which == 2 && f32::from_bits(bits as u32).is_nan(), "f32 NaN");
+        kani::cover!(which == 3 && bits == 0x7ff0_0000_0000_0001, "f64 signalling NaN pattern");
+        kani::cover!(which == 0 && bits & 1 == 0, "false");
+        kani::cover!(which == 1, "null");
+    }
+
+    /// `start_struct / start_array / start_list / start_container`, optionally one member, `end_container`.
+    fn enc_containers(tag: TLVTag) {
+        let which: u8 = kani::any();
+        kani::assume(which < 4);
+        let with_member: bool = kani::any();
+        let id: u8 = kani::any();
+        let val: u8 = kani::any();
+        let mut buf = [0u8; 24];
+        let mut wb = WriteBuf::new(&mut buf);
+        let (r, ty) = match which {
+            0 => (wb.start_struct(&tag), 0x15u8),
+            1 => (wb.start_array(&tag), 0x16),
+            2 => (wb.start_list(&tag), 0x17),
+            _ => (wb.start_container(&tag, TLVValueType::Array), 0x16),
+        };
+        kani::assert(r.is_ok(), "C16.enc.container.start_ok");
+        if with_member {
+            kani::assert(wb.u8(&TLVTag::Context(id), val).is_ok(), "C16.enc.container.member_ok");
+        }
+        kani::assert(wb.end_container().is_ok(), "C16.enc.container.end_ok");
+
+        let members: [u8; 4] = [0x24, id, val, 0x18];
+        let (exp, n) = if with_member { reference(&tag, ty, &members, 4) } else { reference(&tag, ty, &[0x18], 1) };
+        let out = wb.as_slice();
+        kani::assert(same_octets(out, &exp, n), "C16.enc.container.canonical_encoding");
+        kani::cover!(with_member && ty == 0x17, "list with member");
+        kani::cover!(!with_member && which == 3, "empty array via start_container");
+    }
+
+    /// `WriteBuf::{str_cb, utf8_cb}` -> `finalize_len_header` (write.rs:581): whatever number of
+    /// octets the callback reports (0 ..= space left), the header that results is the narrowest
+    /// one, `value_len` (through `octets`/`container_len`) reads the same number back, and the
+    /// payload is where the callback put it. Buffer capacity 280, so both header widths
+    /// (<= 255: 8-bit with the payload moved down by one; >= 256: 16-bit patched in place) occur.
+    /// Out of reach: reports above 65535 (documented panic of `finalize_len_header`; needs a
+    /// buffer of more than 64 KiB).
+    fn len_header_cb(tag: TLVTag) {
+        const CAP: usize = 280;
+        let utf: bool = kani::any();
+        let mut buf: [u8; CAP] = kani::any();
+        let orig = buf;
+        let mut wb = WriteBuf::new(&mut buf);
+        let len: usize = kani::any();
+        let mut space = 0usize;
+        let cb = |b: &mut [u8]| {
+            space = b.len();
+            kani::assume(len <= b.len()); // callback contract: reports at most the window it was given
+            Ok(len)
+        };
+        let r = if utf { wb.utf8_cb(&tag, cb) } else { wb.str_cb(&tag, cb) };
+        let tag_octets = tag.tag_type().size();
+        kani::assert(r.is_ok(), "C16.write.str_cb.ok_when_header_fits");
+        // the callback was offered everything after the reserved 16-bit header
+        kani::assert(space == CAP - (1 + tag_octets + 2), "C16.write.str_cb.callback_gets_remaining_space");
+        let out = wb.as_slice();
+        let ll = if len <= 255 { 1 } else { 2 };
+        kani::assert(out.len() == 1 + tag_octets + ll + len, "C16.write.str_cb.narrowest_header_total_length");
+        let base: u8 = if utf { 0x0c } else { 0x10 };
+        kani::assert(out[0] & 0x1f == base + (ll as u8 - 1), "C16.write.str_cb.element_type");
+        let e = TLVElement::new(out);
+        kani::assert(matches!(TLVSequence(out).container_len(), Ok(l) if l == out.len()), "C16.write.str_cb.len_is_written_length");
+        // payload: octet j of what the callback left at the start of its window
+        let j: usize = kani::any();
+        kani::assume(j < CAP);
+        kani::assert(
+            matches!(e.octets(), Ok(s) if s.len() == len && (j >= len || s[j] == orig[1 + tag_octets + 2 + j])),
+            "C16.write.str_cb.value_len_and_payload_read_back"
+        );
+        kani::cover!(len == 255, "largest 8-bit length");
+        kani::cover!(len == 256, "smallest 16-bit length");
+        kani::cover!(len == 0, "empty");
+    }
+
+    // ------------------------------------------------------------------------------------------
+    // Encoding against the reference, all eight tag forms at once (no reader)
+    // ------------------------------------------------------------------------------------------
+
+    // TIER: thorough
+    // KIND: complete
+    #[kani::proof]
+    #[kani::unwind(10)]
+    fn c16_enc_unsigned_all_tags() {
+        enc_unsigned(any_tag());
+    }
+
+    // TIER: thorough
+    // KIND: complete
+    #[kani::proof]
+    #[kani::unwind(10)]
+    fn c16_enc_signed_all_tags() {
+        enc_signed(any_tag());
+    }
+
+    // TIER: quick
+    // KIND: complete
+    #[kani::proof]
+    #[kani::unwind(10)]
+    fn c16_enc_bool_null_float_all_tags() {
+        enc_bool_null_float(any_tag());
+    }
+
+    // TIER: quick
+    // KIND: complete
+    #[kani::proof]
+    #[kani::unwind(16)]
+    fn c16_enc_containers_all_tags() {
+        enc_containers(any_tag());
+    }
+
+    // ------------------------------------------------------------------------------------------
+    // Round trip through the reader, context tag form (tag number symbolic)
+    // ------------------------------------------------------------------------------------------
+
+    // TIER: thorough
+    // KIND: bounded (context tag form)
+    #[kani::proof]
+    #[kani::unwind(10)]
+    fn c16_rt_unsigned_ctx() {
+        rt_unsigned(tag_of_form(1));
+    }
+
+    // TIER: thorough
+    // KIND: bounded (context tag form)
+    #[kani::proof]
+    #[kani::unwind(10)]
+    fn c16_rt_signed_ctx() {
+        rt_signed(tag_of_form(1));
+    }
+
+    // TIER: thorough
+    // KIND: bounded (context tag form)
+    #[kani::proof]
+    #[kani::unwind(10)]
+    fn c16_rt_bool_null_float_ctx() {
+        rt_bool_null_float(tag_of_form(1));
+    }
+
+    // TIER: thorough
+    // KIND: bounded (context tag form; buffer of 280 bytes: payload <= 276)
+    #[kani::proof]
+    #[kani::unwind(10)]
+    fn c16_len_header_str_cb_ctx() {
+        len_header_cb(tag_of_form(1));
+    }
+
+    // ------------------------------------------------------------------------------------------
+
+    /// Any capacity: the write succeeds exactly when the element fits, and never panics.
+    // TIER: quick
+    // KIND: complete
+    #[kani::proof]
+    #[kani::unwind(10)]
+    fn c16_write_capacity() {
+        let tag = TLVTag::Context(kani::any());
+        let x: u64 = kani::any();
+        let mut buf = [0u8; 12];
+        let cap: usize = kani::any();
+        kani::assume(cap <= 12);
+        let mut wb = WriteBuf::new(&mut buf[..cap]);
+        let r = wb.u64(&tag, x);
+        let w: usize = if x <= 0xff { 1 } else if x <= 0xffff { 2 } else if x <= 0xffff_ffff { 4 } else { 8 };
+        kani::assert(r.is_ok() == (2 + w <= cap), "C16.write.capacity.ok_iff_it_fits");
+        kani::assert(wb.as_slice().len() <= cap, "C16.write.capacity.never_beyond_capacity");
+        if r.is_ok() {
+            kani::assert(wb.as_slice().len() == 2 + w, "C16.write.capacity.length_when_ok");
+        }
+        kani::cover!(r.is_err() && cap > 2, "buffer too small");
+        kani::cover!(r.is_ok() && cap == 10 && w == 8, "exact fit");
+    }
+
+    /// `start_container` is documented to open a Struct, Array or List: anything else is refused.
+    /// (Kept apart as `c16_new_*`: on the current tree the end-of-container type is accepted.)
+    // TIER: quick
+    // KIND: complete
+    #[kani::proof]
+    #[kani::unwind(10)]
+    fn c16_new_start_container_type_check() {
+        let ty: u8 = kani::any();
+        kani::assume(ty <= 0x18);
+        let vt: TLVValueType = num::FromPrimitive::from_u8(ty).unwrap();
+        let mut buf = [0u8; 4];
+        let mut wb = WriteBuf::new(&mut buf);
+        let r = wb.start_container(&TLVTag::Anonymous, vt);
+        kani::assert(r.is_ok() == (ty >= 0x15 && ty <= 0x17), "C16.write.start_container.accepts_exactly_container_starts");
+        kani::cover!(r.is_ok(), "accepted");
+        kani::cover!(r.is_err(), "refused");
+    }
+}
